@@ -125,11 +125,43 @@ fn sweep(max: u16, part: u16, parts: u16) -> Session {
     s
 }
 
+fn strips(long: u16) -> Vec<Session> {
+    const SHORT: [u16; 13] = [1, 2, 7, 8, 9, 10, 15, 16, 17, 18, 19, 24, 33];
+    let mut out = Vec::new();
+    let mut rng = Rng::new(0xC13_57);
+    let mut cfg = GenCfg::draw(&mut rng, &[0]);
+    cfg.density = 0;
+    cfg.pei16 = 0;
+    cfg.stuff16 = 0;
+    for transposed in [false, true] {
+        let mut s = Session { note: format!("strips up to {long} ({})", if transposed { "tall" } else { "wide" }), pics: vec![], events: vec![Ev::New { d: 0, opts: 1 }], max_chunk: 0 };
+        let mut q = 0u8;
+        for l in 41..=long {
+            for sh in SHORT {
+                let (w, h) = if transposed { (sh, l) } else { (l, sh) };
+                q = q % 31 + 1;
+                let code = if w <= 255 && h <= 255 { 0 } else { 1 };
+                let mut spec = gen_picture(&mut rng, &cfg, Flavour::Sorenson { version: 0, size_code: code }, PType::I, w, h, 0);
+                spec.quant = q;
+                let (pp, _) = PlanPic::from_spec(spec, vec![], "valid picture");
+                let len = pp.bytes.len();
+                s.pics.push(pp);
+                let pi = s.pics.len() - 1;
+                s.events.push(Ev::Reader { d: 0 });
+                s.events.push(Ev::Feed { d: 0, pic: pi, from: 0, to: len });
+                s.events.push(Ev::Decode { d: 0 });
+            }
+        }
+        out.push(s);
+    }
+    out
+}
+
 impl Property for C13 {
     type Plan = Session;
     const ID: &'static str = "C13";
     const LEVEL: &'static str = "exploration";
-    const RULE: &'static str = "the pipeline invariant (plane sizes, chroma row length, deblock of the three planes with QUANT_TO_STRENGTH[quantizer], yuv420_to_rgba, 4*w*h output bytes, no panic with the converter's debug_assert preconditions live) is evaluated after every ACCEPTED picture of seeded fault-injecting sessions (same generator as C01 with more valid pictures: valid, truncated-but-accepted and corrupted-but-accepted pictures, size changes, all option sets) and of a sweep over every width x height in 1..=40 (quick) / 1..=96 (thorough) with quantizers cycling 1..31. evaluations = accepted pictures judged (width, height >= 1 and quantizer 1..31). Distinct non-trivial cases = distinct (width, height, quantizer) triples judged.";
+    const RULE: &'static str = "the pipeline invariant (plane sizes, chroma row length, deblock of the three planes with QUANT_TO_STRENGTH[quantizer], yuv420_to_rgba, 4*w*h output bytes, no panic with the converter's debug_assert preconditions live) is evaluated after every ACCEPTED picture of seeded fault-injecting sessions (same generator as C01 with more valid pictures: valid, truncated-but-accepted and corrupted-but-accepted pictures, size changes, all option sets) and of a sweep over every width x height in 1..=40 (quick) / 1..=96 (thorough) plus strips of every length 41..=264 (quick) / 41..=430 (thorough) against 13 short dimensions around the block / macroblock / SIMD-group boundaries, wide and tall, with quantizers cycling 1..31. evaluations = accepted pictures judged (width, height >= 1 and quantizer 1..31). Distinct non-trivial cases = distinct (width, height, quantizer) triples judged.";
     fn runs(tier: Tier) -> u64 {
         match tier {
             Tier::Quick => 60_000,
@@ -173,6 +205,11 @@ impl Property for C13 {
     }
     fn sweeps(tier: Tier) -> Vec<Session> {
         let (max, parts) = if tier == Tier::Quick { (40, 4) } else { (96, 16) };
-        (0..parts).map(|p| sweep(max, p, parts)).collect()
+        let mut v: Vec<Session> = (0..parts).map(|p| sweep(max, p, parts)).collect();
+        // strips: every width (height) up to 264 / 430 against a set of heights (widths)
+        // chosen around the block, macroblock and SIMD-group boundaries
+        let long = if tier == Tier::Quick { 264 } else { 430 };
+        v.extend(strips(long));
+        v
     }
 }
